@@ -1,5 +1,6 @@
 // Language harness (parser level): C16 (a) lexer round-trip, (b) grouping, (d) acceptance; C18 (a) arbitrary / near-valid input.
 #include "pbt.h"
+#include "pbt_fuzz.h"
 #include "riddle_lexer.h"
 #include "riddle_parser.h"
 #include <functional>
@@ -610,4 +611,4 @@ namespace
 #include "h_lang_grammar.inc" // NOLINT
 } // namespace
 
-int main(int argc, char **argv) { return pbt::run(argc, argv, dispatch, cfg_for); }
+PBT_MAIN(dispatch, cfg_for)
